@@ -63,6 +63,9 @@ pub struct Graph<Y: Sys> {
     /// per state: successor index per action
     pub succ: Vec<Vec<u32>>,
     pub outs: Vec<Vec<Y::O>>,
+    /// the state cap was hit: states with index >= `expanded` have not been expanded
+    pub capped: bool,
+    pub expanded: usize,
 }
 
 impl<Y: Sys> Graph<Y> {
@@ -78,7 +81,7 @@ impl<Y: Sys> Graph<Y> {
     }
 }
 
-pub fn bfs<Y: Sys>(sys: &Y, keep_edges: bool) -> Graph<Y> {
+pub fn bfs<Y: Sys>(sys: &Y, keep_edges: bool, max_states: usize) -> Graph<Y> {
     let mut g = Graph::<Y> {
         states: vec![],
         parent: vec![],
@@ -88,6 +91,8 @@ pub fn bfs<Y: Sys>(sys: &Y, keep_edges: bool) -> Graph<Y> {
         bads: vec![],
         succ: vec![],
         outs: vec![],
+        capped: false,
+        expanded: 0,
     };
     let mut index: HashMap<Y::S, usize> = HashMap::new();
     let init = sys.init();
@@ -98,6 +103,10 @@ pub fn bfs<Y: Sys>(sys: &Y, keep_edges: bool) -> Graph<Y> {
     let alphabet = sys.alphabet();
     let mut head = 0;
     while head < g.states.len() {
+        if g.states.len() > max_states {
+            g.capped = true;
+            break;
+        }
         let s = g.states[head].clone();
         let mut succ_row = Vec::with_capacity(if keep_edges { alphabet.len() } else { 0 });
         let mut out_row = Vec::with_capacity(if keep_edges { alphabet.len() } else { 0 });
@@ -131,6 +140,7 @@ pub fn bfs<Y: Sys>(sys: &Y, keep_edges: bool) -> Graph<Y> {
         }
         head += 1;
     }
+    g.expanded = head;
     g
 }
 
@@ -167,8 +177,8 @@ pub struct SrResult {
     pub counterexample: Option<Vec<usize>>,
 }
 
-pub fn stateright_bfs<Y: Sys>(sys: Arc<Y>) -> SrResult {
-    let checker = SrModel(sys).checker().threads(1).spawn_bfs().join();
+pub fn stateright_bfs<Y: Sys>(sys: Arc<Y>, max_states: usize) -> SrResult {
+    let checker = SrModel(sys).checker().threads(1).target_state_count(max_states.saturating_mul(2)).spawn_bfs().join();
     let d = checker.discoveries();
     let cx = d.into_values().next().map(|p| p.into_actions());
     SrResult {
@@ -180,11 +190,17 @@ pub fn stateright_bfs<Y: Sys>(sys: Arc<Y>) -> SrResult {
 }
 
 /// Run both explorers and compare. Returns the graph and a list of disagreements (machinery errors).
-pub fn explore_both<Y: Sys>(sys: Arc<Y>, keep_edges: bool) -> (Graph<Y>, SrResult, Vec<String>) {
-    let g = bfs(&*sys, keep_edges);
-    let sr = stateright_bfs(sys.clone());
+pub fn explore_both<Y: Sys>(sys: Arc<Y>, keep_edges: bool, max_states: usize) -> (Graph<Y>, SrResult, Vec<String>) {
+    let g = bfs(&*sys, keep_edges, max_states);
+    let sr = stateright_bfs(sys.clone(), max_states);
     let mut errs = vec![];
-    if g.bads.is_empty() {
+    if g.capped {
+        // the subject's reachable state space is far larger than the reference model's: the search is not
+        // closed. Violations found so far are still real (BFS order: shallowest first).
+        if g.bads.is_empty() {
+            errs.push(format!("state cap of {} states hit without closing the search and without a violation (the real object has far more reachable states than the reference model)", max_states));
+        }
+    } else if g.bads.is_empty() {
         if sr.unique_states != g.states.len() {
             errs.push(format!(
                 "explorers disagree on state count: own BFS {} vs stateright {}",
